@@ -543,8 +543,24 @@ void World::deliver(InFlight& f)
     if (n)
         memcpy(buf, f.bytes.data(), n);
     const bool passNull = (n == 0 && plan.cfgGet("nullbuf", 0));
+    const uint64_t e0 = edgeCount();
     std::vector<lib::PacketRef> out = dec->decode(passNull ? nullptr : buf, n);
+    const uint64_t edges = edgeCount() - e0;
     res.apiCalls++;
+    if (edges)
+    {
+        // C02 "returns promptly", decided deterministically: the work of one decode call (basic-block edges of library
+        // code) must stay linear in the size of the buffer. Calibrated on the unchanged tree (evidence key
+        // probes.max-edges-per-call-permille-of-bound): the largest observed ratio is far below 1.
+        const uint64_t bound = 4000 + 60 * static_cast<uint64_t>(n);
+        const uint64_t permille = edges * 1000 / bound;
+        uint64_t& mx = res.probes["max-edges-per-call-permille-of-bound"];
+        if (permille > mx)
+            mx = permille;
+        if (is("C02") && edges > bound)
+            violate("time.superlinear", "one decode call of " + std::to_string(n) + " bytes executed " + std::to_string(edges) +
+                                            " basic-block edges of library code, linear bound " + std::to_string(bound));
+    }
     const bool written = n && memcmp(buf, f.bytes.data(), n) != 0;
     delete[] buf;
     if (written && is("C02"))
